@@ -436,6 +436,16 @@ func failAtMenu(f int) func(i, k int) []answer {
 	}
 }
 
+// failAtSetMenu: the items in fs fail, the others succeed
+func failAtSetMenu(fs ...int) func(i, k int) []answer {
+	return func(i, k int) []answer {
+		if contains(fs, i) {
+			return []answer{{err: itemErr(i, k)}}
+		}
+		return []answer{{val: okVal(i)}}
+	}
+}
+
 func genC09(tier string) []Scenario {
 	var out []Scenario
 	th := tier == "thorough"
@@ -448,6 +458,15 @@ func genC09(tier string) []Scenario {
 		sc.postMenu = postX
 		sc.shape = shResults
 		out = append(out, sc.scenario())
+	}
+	// TWO items fail, possibly at the same moment on two workers: each of those workers has then
+	// observed a failure and starts nothing further, whichever of them "won"
+	for _, pr := range [][2]int{{0, 1}, {0, 2}, {1, 2}} {
+		bd := 2
+		if th {
+			bd = unbounded
+		}
+		add(batchScn{name: fmt.Sprintf("stop-two-failures n=4 c=2 fail=%v", pr), n: 4, c: 2, stop: true, budget: 1, yield: true, execMenu: failAtSetMenu(pr[0], pr[1]), bound: bd})
 	}
 	// sequential and one worker: nothing after the first failing item; all positions
 	for _, c := range []int{0, 1} {
